@@ -1,6 +1,6 @@
 import BppModel.Graph
 /-
-`GlobalGraph::orientate()` (GlobalGraph.cpp:742-815 of the library worktree): the one public
+`GlobalGraph::orientate()` (GlobalGraph.cpp:750-823 of the library worktree): the one public
 mutator of `GlobalGraph` that round 1 left out.  It makes the graph directed, then walks a *copy*
 `gg` of the graph from the root: the node treated next has its incoming relations (in the copy)
 reversed in the graph itself with `switchNodes`, its neighbours are queued, and it is deleted from
@@ -22,10 +22,10 @@ So a raising `orientate` does *not* leave the graph unchanged; it leaves it cons
 namespace Bpp.Graph
 namespace G
 
-/-- `getNumberOfNeighbors` (GlobalGraph.cpp:456); `none` = throws -/
+/-- `getNumberOfNeighbors` (GlobalGraph.cpp:460); `none` = throws -/
 def nbNeighbors (g : G) (n : Nat) : Option Nat := RowQ.degree g.directed (g.rowOf n)
 
-/-- first loop over the queue (:764-768): `some (some n)` = found, `some none` = none found,
+/-- first loop over the queue (:772-776): `some (some n)` = found, `some none` = none found,
 `none` = `getNumberOfNeighbors` threw (a queued node that is not in the copy) -/
 def orientScan (gg : G) : List Nat → Option (Option Nat)
   | [] => some none
@@ -34,7 +34,7 @@ def orientScan (gg : G) : List Nat → Option (Option Nat)
     | none => none
     | some d => if d ≤ 1 then some (some n) else orientScan gg r
 
-/-- the node treated next (:764-796) -/
+/-- the node treated next (:772-804) -/
 def orientPick (gg : G) (next : List Nat) : Option Nat :=
   match orientScan gg next with
   | none => none
@@ -56,7 +56,7 @@ structure OrientRun where
   raised : Bool := false
   g : G
 
-/-- `switchNodes(nbgg, it2)` for every incoming neighbour (in the copy) of the treated node (:799-803) -/
+/-- `switchNodes(nbgg, it2)` for every incoming neighbour (in the copy) of the treated node (:807-811) -/
 def orientSwitches (nb : Nat) : List Nat → OrientRun → OrientRun
   | [], r => r
   | i :: rest, r =>
@@ -64,7 +64,7 @@ def orientSwitches (nb : Nat) : List Nat → OrientRun → OrientRun
     | .ok _ g' => orientSwitches nb rest { r with switches := r.switches ++ [(nb, i)], g := g' }
     | .exc g' => { switches := r.switches ++ [(nb, i)], raised := true, g := g' }
 
-/-- the loop `while (gg.getNumberOfNodes() != 0)` (:757-814); `fuel` = number of nodes of the copy + 1
+/-- the loop `while (gg.getNumberOfNodes() != 0)` (:765-822); `fuel` = number of nodes of the copy + 1
 (every round deletes one node of the copy) -/
 def orientLoop : Nat → OrientRun → G → List Nat → OrientRun
   | 0, r, _, _ => r
